@@ -146,6 +146,12 @@ def install(world):
         return V(BOOL, sel_is_null(eng.coerce(args[0], SEL, node).term))
     world.add_prim('sel_is_null', p_sel_is_null, VI.sel_is_null)
 
+    fake_parent_f = z3.Function('fake_parent', NS, NS)
+
+    def p_fake_parent(eng, args, st, node):
+        return V(NODE, fake_parent_f(node_arg(eng, args[0], node)))
+    world.add_prim('fake_parent', p_fake_parent, VT.fake_parent)
+
     def p_same(eng, args, st, node):
         return V(BOOL, eng.eq(args[0], args[1], node))
     world.add_prim('same', p_same, VT.same)
@@ -209,6 +215,16 @@ def install(world):
             return VPy(('attrs', t))
         return None
     world.attr_rules.append(attr_rule)
+
+    # ---- `==` on page elements is bs4's structural equality (Tag.__eq__ compares name, attributes and contents;
+    #      strings compare as str), NOT identity: modelled as an uninterpreted relation that identity implies
+    struct_eq = z3.Function('bs4.__eq__', NS, NS, z3.BoolSort())
+
+    def value_eq_hook(eng, a, b, node):
+        if isinstance(a, V) and isinstance(b, V) and a.t == NODE and b.t == NODE:
+            return z3.Or(a.term == b.term, struct_eq(a.term, b.term))
+        return None
+    world.value_eq_hook = value_eq_hook
 
     # ---- isinstance
     kind_of = {bs4.Tag: is_tag, bs4.BeautifulSoup: is_doc, bs4.element.NavigableString: is_navstr, bs4.Comment: is_comment,
